@@ -213,7 +213,7 @@ func (g *c14Gen) fillVal(fv reflect.Value) {
 	case reflect.String:
 		fv.SetString(g.str())
 	case reflect.Int:
-		fv.SetInt(int64(gen.Pick(g.r, []int{0, 1, 5, 80, 443, 40056, 65535, -1, 2147483647, g.r.Intn(100000)})))
+		fv.SetInt(int64(gen.Pick(g.r, []int{0, 1, 5, 80, 443, 40056, 65535, -1, 2147483647, g.r.Intn(100000), 1000, 250000, 4294967296, 1 << 53, 1<<53 + 1, 9007199254740993, 9223372036854775807, -9223372036854775808, -9007199254740993})))
 	case reflect.Bool:
 		fv.SetBool(g.r.Bool())
 	case reflect.Slice:
@@ -344,6 +344,9 @@ func (g *c14Gen) writeVal(name string, fv reflect.Value) string {
 		if g.r.Chance(1, 4) {
 			return fmt.Sprintf("\"%d\"", fv.Int())
 		}
+		if n := fv.Int(); n != 0 && n%1000 == 0 && g.r.Chance(1, 2) { // other spellings of a whole number
+			return gen.Pick(g.r, []string{fmt.Sprintf("%de3", n/1000), fmt.Sprintf("%dE+3", n/1000), fmt.Sprintf("%d.0", n)})
+		}
 		return fmt.Sprintf("%d", fv.Int())
 	case reflect.Bool:
 		if g.r.Chance(1, 4) {
@@ -423,7 +426,22 @@ func (g *c14Gen) writeStruct(path, ind string, v reflect.Value, mu *mutation, sb
 				if g.r.Chance(1, 4) {
 					eq = "   =  "
 				}
-				sb.WriteString(ind + ti.name + eq + g.writeVal(fpath, fv) + "\n")
+				val := g.writeVal(fpath, fv)
+				if mu.kind == "syntax" && mu.path == fpath && !strings.Contains(val, "\n") {
+					// a syntax fault on this line: a second setting behind the first, or a list without its separator
+					mu.done = true
+					mu.line = lineOf(sb)
+					if fv.Kind() == reflect.Slice && fv.Len() >= 2 && g.r.Bool() {
+						var ps []string
+						for i := 0; i < fv.Len(); i++ {
+							ps = append(ps, g.quote(fpath, fv.Index(i).String()))
+						}
+						val = "[" + ps[0] + " " + strings.Join(ps[1:], ", ") + "]"
+					} else {
+						val += " Extra = 1"
+					}
+				}
+				sb.WriteString(ind + ti.name + eq + val + "\n")
 			})
 		case "block":
 			emit := func(p string, e reflect.Value) {
@@ -443,6 +461,18 @@ func (g *c14Gen) writeStruct(path, ind string, v reflect.Value, mu *mutation, sb
 							if lt, ok := yaotlTag(e.Type().Field(j)); ok && lt.kind == "label" {
 								hdr += " " + g.quote(p+"."+lt.name, e.Field(j).String())
 							}
+						}
+						if !strings.HasPrefix(mu.path, p) && g.r.Chance(1, 2) {
+							// a block with a single setting may be written on one line
+							var inner strings.Builder
+							g.writeStruct(p, "", e, mu, &inner)
+							body := inner.String()
+							if strings.Count(body, "\n") == 1 && !strings.ContainsAny(body, "#{}") && !strings.Contains(body, "//") && !strings.Contains(body, "<<") {
+								sb.WriteString(hdr + " { " + strings.TrimSpace(body) + " }\n")
+							} else {
+								sb.WriteString(hdr + " {\n" + body + ind + "}\n") // (not re-indented: heredocs inside)
+							}
+							continue
 						}
 						sb.WriteString(hdr + " {\n")
 						g.writeStruct(p, ind+"    ", e, mu, sb)
@@ -519,7 +549,7 @@ func runC14(c *Ctx) {
 			if strings.HasSuffix(e, "={}") {
 				mu = &mutation{kind: gen.Pick(r, []string{"dupblock", "unknownattr"}), path: p}
 			} else {
-				mu = &mutation{kind: gen.Pick(r, []string{"dropattr", "wrongkind"}), path: p}
+				mu = &mutation{kind: gen.Pick(r, []string{"dropattr", "wrongkind", "syntax"}), path: p}
 			}
 		}
 		var sb strings.Builder
